@@ -46,18 +46,20 @@ def dropLastCR (l : Bytes) : Bytes :=
 
 /-! ## CRC-24 (armor.go `crc24`) -/
 
-def crcShift (c : UInt32) : UInt32 :=
-  let c := c <<< 1
+/-- the `uint32` accumulator as a natural number (`% 2^32` is the `uint32` wrap of `crc <<= 1`; it never
+    fires: the value stays below 2^25) -/
+def crcShift (c : Nat) : Nat :=
+  let c := (c * 2) % 4294967296
   if c &&& 0x1000000 != 0 then c ^^^ 0x1864cfb else c
 
-def crcByte (crc : UInt32) (b : UInt8) : UInt32 :=
-  let c := crc ^^^ (b.toUInt32 <<< 16)
+def crcByte (crc : Nat) (b : UInt8) : Nat :=
+  let c := crc ^^^ (b.toNat * 65536)
   crcShift (crcShift (crcShift (crcShift (crcShift (crcShift (crcShift (crcShift c)))))))
 
-def crc24 (crc : UInt32) (d : Bytes) : UInt32 := d.foldl crcByte crc
+def crc24 (crc : Nat) (d : Bytes) : Nat := d.foldl crcByte crc
 
-def crc24Init : UInt32 := 0xb704ce
-def crc24Mask : UInt32 := 0xffffff
+def crc24Init : Nat := 0xb704ce
+def crc24Mask : Nat := 0xffffff
 
 /-! ## base64, standard alphabet with `=` padding (stand-in for encoding/base64.StdEncoding) -/
 
@@ -188,10 +190,11 @@ def hdrLine (kv : Bytes × Bytes) : Bytes := kv.1 ++ str ": " ++ kv.2
 def encHead (ty : Bytes) (hdr : Hdr) : Bytes :=
   armorStart ++ ty ++ armorEOL ++ [LF] ++ (hdr.map (fun kv => hdrLine kv ++ [LF])).flatten ++ [LF]
 
-def crcBytes (c : UInt32) : Bytes :=
-  [(c >>> 16).toUInt8, (c >>> 8).toUInt8, c.toUInt8]
+/-- `byte(e.crc >> 16), byte(e.crc >> 8), byte(e.crc)` -/
+def crcBytes (c : Nat) : Bytes :=
+  [UInt8.ofNat (c / 65536 % 256), UInt8.ofNat (c / 256 % 256), UInt8.ofNat (c % 256)]
 
-def encTail (ty : Bytes) (crc : UInt32) : Bytes :=
+def encTail (ty : Bytes) (crc : Nat) : Bytes :=
   [LF, PAD] ++ b64enc (crcBytes crc) ++ [LF] ++ armorEnd ++ ty ++ armorEOL
 
 /-- spec-shaped encoder: a function of the whole body -/
@@ -399,7 +402,7 @@ termination_by s.length
 /-- how the lineReader's stream of lines ends -/
 inductive LineEnd where
   | eof            -- `-----END ` line, or the input ran out: io.EOF, crcSet = false
-  | eofCrc (crc : UInt32)   -- `=XXXX` line followed by an `-----END ` line: io.EOF, crcSet = true
+  | eofCrc (crc : Nat)   -- `=XXXX` line followed by an `-----END ` line: io.EOF, crcSet = true
   | corrupt        -- ArmorCorrupt (over-long line, or no END after the checksum line)
   | b64err         -- CorruptInputError from decoding the checksum line
 deriving DecidableEq, Repr
@@ -422,7 +425,7 @@ def bodyLines (s : Bytes) : List Bytes × LineEnd :=
         let q := bodyLines rest
         ([] :: q.1, q.2)
       else
-        let crc := (r.out.getD 0 0).toUInt32 <<< 16 ||| (r.out.getD 1 0).toUInt32 <<< 8 ||| (r.out.getD 2 0).toUInt32
+        let crc := (r.out.getD 0 0).toNat * 65536 + (r.out.getD 1 0).toNat * 256 + (r.out.getD 2 0).toNat
         match readLine rest with
         | none => ([], .corrupt)          -- io.EOF: line is empty, not an END line
         | some (l2, _, _) => if hasPrefix l2 armorEnd then ([], .eofCrc crc) else ([], .corrupt)
@@ -465,7 +468,7 @@ def readBody (s : Bytes) : Bytes × BodyEnd :=
   | some .corrupt => (r.1, .corrupt)
   | some .eof => (r.1, .eof)
   | some (.eofCrc c) =>
-    if c != (crc24 crc24Init r.1) &&& crc24Mask then (r.1, .corrupt) else (r.1, .eof)
+    if c != (crc24 crc24Init r.1) % 16777216 then (r.1, .corrupt) else (r.1, .eof)   -- `& crc24Mask`
 
 /-- `armor.Decode` then reading the body to its end -/
 def decode (s : Bytes) : Option (Bytes × Hdr × Bytes × BodyEnd) :=
